@@ -19,14 +19,17 @@ BUDGET = {"quick": 50, "thorough": 900}
 RULE = (
     "workload A: 2-4 consumers on one queue (same broker object, or different connections/nodes on Redis and RabbitMQ) run "
     "consume -> think -> ack|reject|requeue loops with occasional finish/restart over 1-30 messages; network latencies are drawn "
-    "so that the consumers' round trips overlap. Oracle over the recorder's global event order: between two returns of an id "
+    "so that the consumers' round trips overlap; in a third of the runs the messages have two topics and the consumers filter by "
+    "topic, in 40% a part of the messages is delayed with several of them due at the very same instant. Oracle over the recorder's global event order: between two returns of an id "
     "(reject, requeue, its holder's finish) at most one consume() returns it, and never after its ack. workload B: 2-3 workers "
     "with an always-succeeding actor (Redis: one of them may be killed and its messages recovered by maintenance after their "
     "timeout): every job executed exactly once (twice only if its first holder was killed). non-trivial = at least two consumers "
     "received messages (A) / two workers executed jobs (B); distinct = interleaving digest."
 )
 SHRINK_LISTS = ("consumers", "jobs")
-ASSUMPTIONS = ["a holder acts only on messages it holds; think times and timeouts are seeded"]
+ASSUMPTIONS = ["a holder acts only on messages it holds; think times and timeouts are seeded",
+               "the second reject of an overlapping pair which reaches the Redis server after a consumer took the message again "
+               "(seen in the server's take counter) is a former holder's late call: that id is not judged"]
 
 
 def gen(rng, broker, tier):
@@ -50,7 +53,20 @@ def gen(rng, broker, tier):
                             for _ in range(rng.randint(3, 25))],
                 "start_us": rng.choice([0, 0, 1000, 50_000]),
             })
-        return {"mode": "consumers", "nmsg": nmsg, "consumers": cons, "jobs": [],
+        # messages of one or two topics on the same queue and consumers which take only some of them (two workers with
+        # different actors sharing a queue); a part of the messages is delayed, several of them due at the very same instant
+        topics = rng.choice([["t"], ["t"], ["t", "u"]])
+        if len(topics) > 1:
+            for c_ in cons:
+                c_["topics"] = rng.choice([None, ["t"], ["u"], ["t", "u"]])
+            if not any(c_["topics"] is None or "u" in c_["topics"] for c_ in cons):
+                cons[0]["topics"] = None
+            if not any(c_["topics"] is None or "t" in c_["topics"] for c_ in cons):
+                cons[-1]["topics"] = None
+        due = None
+        if rng.random() < 0.4:
+            due = {"after_us": rng.choice([5_000, 60_000, 250_000]), "tenths": rng.choice([3, 7, 10]), "slots": rng.choice([1, 1, 2])}
+        return {"mode": "consumers", "nmsg": nmsg, "consumers": cons, "jobs": [], "topics": topics, "due": due,
                 "prios": rng.choice([[5], [5], [0, 5, 9]]),
                 "enq_gap_us": rng.choice([0, 0, 500, 20_000]),
                 "knobs": {"step_cost": rng.choice([0, 0, 1, "rand"]), "net": net,
@@ -76,7 +92,7 @@ async def _main_consumers(sim, sc, out):
     nodes = sorted({c["node"] for c in sc["consumers"]} | {"p"})
     world = await World(sim, b, nodes=nodes, buckets="none", knobs=sc.get("knobs")).setup()
     from repid.data._key import RoutingKey
-    from repid.data._parameters import Parameters, RetriesProperties
+    from repid.data._parameters import DelayProperties, Parameters, RetriesProperties
 
     for n in nodes:
         await sim.loop.spawn(n, r.Queue("q", _connection=world.conn(n)).declare())
@@ -89,23 +105,31 @@ async def _main_consumers(sim, sc, out):
 
     async def produce():
         mb = world.conn("p").message_broker
+        tps = sc.get("topics") or ["t"]
+        due = sc.get("due")
+        t0 = sim.clock.now()
         for i, id_ in enumerate(ids):
-            key = RoutingKey(id_=id_, topic="t", queue="q", priority=sc["prios"][i % len(sc["prios"])])
-            await mb.enqueue(key, f'{{"m":"{id_}"}}', Parameters(timestamp=sim.clock.now()))
+            key = RoutingKey(id_=id_, topic=tps[i % len(tps)], queue="q", priority=sc["prios"][i % len(sc["prios"])])
+            delay = DelayProperties()
+            if due and (i * 7 + 3) % 10 < due["tenths"]:
+                slot = (i // len(tps)) % due["slots"]
+                delay = DelayProperties(delay_until=t0 + timedelta(microseconds=due["after_us"] + slot * 50_000))
+                probe(out, "delayed-message-sharing-its-due-instant")
+            await mb.enqueue(key, f'{{"m":"{id_}"}}', Parameters(timestamp=sim.clock.now(), delay=delay))
             if sc["enq_gap_us"]:
                 await asyncio.sleep(sc["enq_gap_us"] / 1e6)
 
     async def consumer_loop(ci, c):
         mb = world.conn(c["node"]).message_broker
         await asyncio.sleep(c["start_us"] / 1e6)
-        cons = mb.get_consumer("q", None, None)
+        cons = mb.get_consumer("q", c.get("topics"), None)
         await cons.start()
         for act in c["actions"]:
             if len(acked | maybe_acked) >= len(ids):
                 break
             if act == "restart":
                 await cons.finish()
-                cons = mb.get_consumer("q", None, None)
+                cons = mb.get_consumer("q", c.get("topics"), None)
                 await cons.start()
                 continue
             res = await consume_with_timeout(cons, c["timeout_us"] / 1e6)
@@ -113,7 +137,7 @@ async def _main_consumers(sim, sc, out):
                 key, payload, params = res
             else:
                 await cons.finish()
-                cons = mb.get_consumer("q", None, None)
+                cons = mb.get_consumer("q", c.get("topics"), None)
                 await cons.start()
                 continue
             got_by.setdefault(ci, 0)
@@ -128,18 +152,27 @@ async def _main_consumers(sim, sc, out):
             elif act == "reject+finish":
                 # what a stopping worker does: the holder rejects its message while its consumer is being finished
                 await asyncio.gather(mb.reject(key), cons.finish())
-                cons = mb.get_consumer("q", None, None)
+                cons = mb.get_consumer("q", c.get("topics"), None)
                 await cons.start()
             elif act.startswith("reject+reject:"):
                 # the holder gives the same delivery back twice (e.g. its own reject and a clean-up path): the second one
                 # has nothing to return
                 k = int(act.split(":")[1])
+                takes0 = world.redis.takes.get(key.id_, 0) if world.redis is not None else None
+                reads0 = len(world.redis.marker_reads.get(key.id_, ())) if world.redis is not None else 0
                 t1 = asyncio.ensure_future(mb.reject(key))
                 for _ in range(k):
                     await asyncio.sleep(0)
-                # (the second call starts while the first is still on the wire: nobody else can have taken the message in
-                # between - a reject issued after the message went to another holder would be that holder's loss on every broker)
+                # (the second call starts while the first is still on the wire - a reject issued after the message went to
+                # another holder would be that holder's loss on every broker. With a slow network the second call can still
+                # reach the server after the first one completed *and* a consumer took the message again; Redis' marker says
+                # "held", not "held by whom", so that late call is a former holder rejecting somebody else's delivery: the
+                # server tells the two cases apart - how often the id had been taken when each reject read the marker - and
+                # such an id is not judged)
                 await asyncio.gather(t1, mb.reject(key))
+                if takes0 is not None and any(t != takes0 for t in world.redis.marker_reads.get(key.id_, [])[reads0:]):
+                    out.setdefault("_tainted", set()).add(key.id_)
+                    probe(out, "second-reject-of-a-pair-overlapped-a-new-take-not-judged")
             elif "+finish:" in act:
                 first, k = act.split("+")[0], int(act.split(":")[1])
                 if k >= 0:
@@ -154,7 +187,7 @@ async def _main_consumers(sim, sc, out):
                     if t2.done():
                         # finish() has already returned the message: whoever got it since is its holder now, and a
                         # terminal call of ours would be that holder's loss on every broker - a well-behaved client stops here
-                        cons = mb.get_consumer("q", None, None)
+                        cons = mb.get_consumer("q", c.get("topics"), None)
                         await cons.start()
                         continue
                     t1 = asyncio.ensure_future(getattr(mb, first)(key))
@@ -163,7 +196,7 @@ async def _main_consumers(sim, sc, out):
                     # whichever takes effect first wins: either the message is gone, or its holder's shutdown returned it
                     # and the ack found nothing to do - both are fine, two copies are not
                     maybe_acked.add(key.id_)
-                cons = mb.get_consumer("q", None, None)
+                cons = mb.get_consumer("q", c.get("topics"), None)
                 await cons.start()
             else:
                 await mb.requeue(key, payload, Parameters(timestamp=sim.clock.now(),
